@@ -158,27 +158,99 @@ def check_redirect(ctx, prog):
     return accepted, R, T, I
 
 
+def check_streams_composition(ctx, prog):
+    """A2c: parse_options as a whole (real parse_redirect inlined): each stream is validated with its own tag, the
+    parent/discard shorthands apply to all three, the file/path shorthands to stdout and stderr only.  Checked
+    semantically, so a table-driven rewrite of the three calls is fine as long as it validates the same way."""
+    F = prog.fn("parse_options")
+    I = new_interp(prog)
+    I.MAX_STATES = 50000
+    I.widen = False         # a table-driven loop over the three streams is unrolled exactly
+    p = {x["name"]: ("v", F.gdid(x["did"])) for x in F.params}
+    O = ("g", "options_under_test")
+    AV = ("g", "argv_under_test")
+    T = {t: I.abs_int(prog.const("REPROC_REDIRECT_" + t)) for t in TYPES}
+    Tinv = {v: k for k, v in T.items()}
+    # per stream: unset / explicit PIPE / explicit STDOUT / handle set / path set
+    per = [("DEFAULT", 0, 0, 0), ("PIPE", 0, 0, 0), ("STDOUT", 0, 0, 0), ("DEFAULT", 1, 0, 0), ("DEFAULT", 0, 0, 1)]
+    states = []
+    for sh in itertools.product((0, 1), repeat=4):
+        parent, discard, fsh, psh = sh
+        for combo in itertools.product(per, repeat=3):
+            st = State()
+            st.mon["nofail"] = True
+            st.mem[p["options"]] = fs(("addr", O))
+            red = ("f", O, "redirect")
+            for name, (typ, h, f, pa) in zip(("in", "out", "err"), combo):
+                c0 = ("f", red, name)
+                st.mem[("f", c0, "type")] = fs(T[typ])
+                st.mem[("f", c0, "handle")] = fs(("uh", "h")) if h else fs(0)
+                st.mem[("f", c0, "file")] = fs(("str", "<file>")) if f else fs("NULL")
+                st.mem[("f", c0, "path")] = fs(("str", "<path>")) if pa else fs("NULL")
+            st.mem[("f", red, "parent")] = fs(parent)
+            st.mem[("f", red, "discard")] = fs(discard)
+            st.mem[("f", red, "file")] = fs(("str", "<shorthand file>")) if fsh else fs("NULL")
+            st.mem[("f", red, "path")] = fs(("str", "<shorthand path>")) if psh else fs("NULL")
+            st.mem[("f", ("f", O, "input"), "data")] = fs("NULL")
+            st.mem[("f", ("f", O, "input"), "size")] = fs(0)
+            st.mem[("f", O, "fork")] = fs(0)
+            st.mem[("f", O, "deadline")] = fs(0)
+            st.mem[p["argv"]] = fs(("addr", ("i", AV, 0)))
+            st.mem[("i", AV, 0)] = fs("PTR")
+            st.mon["case"] = (sh, combo)
+            states.append(st)
+    res = I.run(F, states)
+    ctx.stats("E-ABS", I.stats)
+    EINVAL = prog.const("REPROC_EINVAL")
+    by = {}
+    for st, rv in res.exits:
+        by.setdefault(st.mon["case"], []).append((st, rv))
+    bad = 0
+    shown = 0
+    for st0 in states:
+        sh, combo = st0.mon["case"]
+        parent, discard, fsh, psh = sh
+        want = []
+        for stream, (typ, h, f, pa) in zip(("IN", "OUT", "ERR"), combo):
+            want.append(oracle_redirect(stream, typ, h, f, pa, parent, discard, 0 if stream == "IN" else fsh, 0 if stream == "IN" else psh))
+        want_reject = any(w == ("reject",) for w in want)
+        outs = by.get((sh, combo), [])
+        verdicts = set()
+        for st, rv in outs:
+            if rv == fs(EINVAL):
+                verdicts.add(("reject",))
+            elif rv == fs(0):
+                effs = []
+                for name in ("in", "out", "err"):
+                    tv = st.mem.get(("f", ("f", ("f", O, "redirect"), name), "type"))
+                    effs.append(Tinv.get(one(tv)))
+                verdicts.add(("accept",) + tuple(effs))
+            else:
+                verdicts.add(("other", show(rv)))
+        got = sorted(verdicts)
+        if want_reject:
+            ok = verdicts == {("reject",)}
+        else:
+            ok = verdicts == {("accept",) + tuple(w[1] for w in want)}
+        if not ok:
+            bad += 1
+        if not ok or shown < 12:
+            shown += 1
+            ctx.ob("C13.A2c", "parse_options [parent=%d discard=%d file=%d path=%d | in=%s out=%s err=%s]" % (sh + tuple("/".join(map(str, x)) for x in combo)),
+                   "validating the whole options object gives, per stream, the documented verdict: shorthands parent/discard apply to all "
+                   "three streams, file/path only to stdout and stderr", ok,
+                   {"documented": "reject" if want_reject else [w[1] for w in want], "code": got}, nontrivial=True)
+    ctx.extra["abstract_inputs_parse_options_streams"] = len(states)
+    ctx.ob("C13.A2cx", "parse_options: all %d stream/shorthand combinations" % len(states), "all evaluated and compared with the oracle",
+           bad == 0 and len(by) == len(states), {"mismatches": bad}, nontrivial=True)
+
+
+def one(v):
+    return next(iter(v)) if v is not None and len(v) == 1 else None
+
+
 def check_parse_options(ctx, prog, accepted_redirect):
     F = prog.fn("parse_options")
-    # (c) the three calls: stream tags, own sub-object, shorthands (NULL, NULL for stdin)
-    calls = [n for n in F.calls("parse_redirect")]
-    want = {"in": ("REPROC_STREAM_IN", True), "out": ("REPROC_STREAM_OUT", False), "err": ("REPROC_STREAM_ERR", False)}
-    seen = set()
-    for n in calls:
-        a = n["c"][1:]
-        fp = field_path(a[0])
-        sub = fp[1][-1] if fp else None
-        stream = strip(a[1]).get("name")
-        nulls = all(strip(x).get("null") or strip(x).get("val") == 0 for x in a[4:6])
-        sh_ok = (field_path(a[2]) or ("", []))[1][-1:] == ["parent"] and (field_path(a[3]) or ("", []))[1][-1:] == ["discard"]
-        if sub in want:
-            seen.add(sub)
-            w = want[sub]
-            fileok = nulls if w[1] else ((field_path(a[4]) or ("", []))[1][-1:] == ["file"] and (field_path(a[5]) or ("", []))[1][-1:] == ["path"])
-            ctx.ob("C13.A2c", "parse_options: parse_redirect(&options->redirect.%s, ...)" % sub, "each stream is validated with its own "
-                   "stream tag, the parent/discard shorthands, and the file/path shorthands only for stdout and stderr",
-                   stream == w[0] and sh_ok and fileok, {"stream": stream, "args": [expr_str(x)[:40] for x in a]})
-    ctx.ob("C13.A2c", "parse_options: streams", "all three streams are validated", seen == {"in", "out", "err"}, {"seen": sorted(seen)})
     # (d) cross-field rules, exhaustive over their abstract inputs, parse_redirect replaced by accept/reject
     PIPE = prog.const("REPROC_REDIRECT_PIPE")
     PARENT = prog.const("REPROC_REDIRECT_PARENT")
@@ -338,6 +410,7 @@ def check_summary(ctx, prog, accepted, R, T):
 def check(ctx):
     prog = ctx.prog("posix-mt")
     accepted, R, T, I = check_redirect(ctx, prog)
+    check_streams_composition(ctx, prog)
     check_parse_options(ctx, prog, accepted)
     check_purity(ctx, prog)
     check_order(ctx, prog)
